@@ -136,7 +136,7 @@ func (r *rule) compile() error {
 		} else if ch == '?' {
 			// "?" is any char except "/"
 			regStr += "[^" + escSL + "]"
-		} else if ch == '.' || ch == '$' {
+		} else if ch == '.' || ch == '$' || ch == '+' || ch == '(' || ch == ')' || ch == '|' || ch == '{' || ch == '}' || ch == '^' {
 			// Escape some regexp special chars that have no meaning
 			// in golang's filepath.Match
 			regStr += `\` + string(ch)
